@@ -497,10 +497,15 @@ impl Formatter {
                     DecoratorArg::Positional(expr) => self.format_expr(&expr.node),
                     DecoratorArg::Named(name, value) => {
                         self.writer.write(name);
-                        self.writer.write("=");
                         match value {
-                            DecoratorArgValue::Type(ty) => self.format_type(&ty.node),
-                            DecoratorArgValue::Expr(expr) => self.format_expr(&expr.node),
+                            DecoratorArgValue::Type(ty) => {
+                                self.writer.write(": ");
+                                self.format_type(&ty.node);
+                            }
+                            DecoratorArgValue::Expr(expr) => {
+                                self.writer.write("=");
+                                self.format_expr(&expr.node);
+                            }
                         }
                     }
                 }
